@@ -162,9 +162,9 @@ theorem transferCore0_total (a a' : Accts) (t : Transfer) (h : transferCore0 a t
 
 theorem transfer_core (a a' : Accts) (t : Transfer) (h : transfer a t = .ok a') :
     transferCore0 a t = .ok a' ∧ (t.amount = 0 ∨ t.dstCanon = true) ∧
-    (get a t.src).balance + (if t.dstCanon then (get a t.dst).balance else 0) < u64 := by
+    (get a t.src).balance + (if t.dstReadable then (get a t.dst).balance else 0) < u64 := by
   unfold transfer at h
-  by_cases hs : (get a t.src).balance + (if t.dstCanon then (get a t.dst).balance else 0) ≥ u64
+  by_cases hs : (get a t.src).balance + (if t.dstReadable then (get a t.dst).balance else 0) ≥ u64
   · simp [hs] at h
   · simp only [hs, if_false] at h
     unfold transferCore at h
@@ -334,7 +334,7 @@ theorem applyTransfers_inRange (q : List Transfer) : ∀ (a a' : Accts), InRange
 /-! ### settle: fee, queue, nonce -/
 
 def feeQueue (feeOn : Bool) (t : Txn) (transfers signed : List Transfer) : List Transfer :=
-  (if feeOn then transfers ++ [⟨t.sender, minerSC, t.fee, true⟩] else transfers) ++ signed
+  (if feeOn then transfers ++ [⟨t.sender, minerSC, t.fee, true, false⟩] else transfers) ++ signed
 
 theorem settle_some (feeOn : Bool) (a a' : Accts) (t : Txn) (tr sg : List Transfer)
     (h : settle feeOn a t tr sg = some a') :
@@ -343,7 +343,7 @@ theorem settle_some (feeOn : Bool) (a a' : Accts) (t : Txn) (tr sg : List Transf
   unfold settle at h
   simp only at h
   unfold feeQueue
-  cases hq : applyTransfers a ((if feeOn then tr ++ [⟨t.sender, minerSC, t.fee, true⟩] else tr) ++ sg) with
+  cases hq : applyTransfers a ((if feeOn then tr ++ [⟨t.sender, minerSC, t.fee, true, false⟩] else tr) ++ sg) with
   | error e => simp [hq] at h
   | ok a1 =>
     simp only [hq] at h
